@@ -206,24 +206,52 @@ pub fn run(thorough: bool, seed: u64, _replay: Option<String>) -> Report {
             let l = rng.range(t.len(), t.len() + 6);
             items.push((sup[i % sup.len()].to_string(), c, h, t.to_string(), l));
         }
+        // the same candidate (encoding and text) arriving again with other scores – results of several detections of
+        // one input pooled in one container: in the middle of the history and, every fourth time, as its last step
+        if n >= 2 {
+            let dups = if rng.chance(1, 3) { rng.range(1, 3) } else { 0 };
+            for _ in 0..dups {
+                let src = rng.below(n);
+                let dst = rng.below(n);
+                if src != dst {
+                    items[dst].0 = items[src].0.clone();
+                    if rng.chance(2, 3) {
+                        items[dst].3 = items[src].3.clone();
+                        items[dst].4 = items[src].4;
+                    }
+                }
+            }
+            if rng.chance(1, 4) {
+                let src = rng.below(n - 1);
+                let last = n - 1;
+                items[last].0 = items[src].0.clone();
+                items[last].3 = items[src].3.clone();
+                items[last].4 = items[src].4;
+                if rng.chance(1, 2) {
+                    items[last].1 = items[src].1; // same chaos, other coherence
+                }
+            }
+        }
         let build = |it: &(String, f32, f32, String, usize)| {
             let coh: Vec<(&'static charset_normalizer_rs::entity::Language, f32)> = if it.2 == 0.0 { vec![] } else { vec![(english(), it.2)] };
             vh::new_match(vec![0u8; it.4], &it.0, it.1, false, &coh, Some(&it.3))
         };
+        let req = format!(
+            "container 1000000 {} {}",
+            nfirst,
+            items.iter().map(|it| format!("{}|{}|{}|{}|{}", it.0, fbits(it.1), fbits(it.2), text_hex(&it.3), it.4)).collect::<Vec<_>>().join(" ")
+        );
         let mut c = CharsetMatches::new(Some(items[..nfirst].iter().map(build).collect()));
         for it in &items[nfirst..] {
             c.append(build(it));
+            // the ranking guarantee holds after every step of the history, not only at its end
+            check_order(&mut rep, &c, "container-history-step", req.as_bytes(), None);
         }
         let real = c
             .iter()
             .map(|m| format!("{}[{}]", m.encoding(), m.submatch().iter().map(|s| s.encoding().to_string()).collect::<Vec<_>>().join(",")))
             .collect::<Vec<_>>()
             .join(" ");
-        let req = format!(
-            "container 1000000 {} {}",
-            nfirst,
-            items.iter().map(|it| format!("{}|{}|{}|{}|{}", it.0, fbits(it.1), fbits(it.2), text_hex(&it.3), it.4)).collect::<Vec<_>>().join(" ")
-        );
         let model = drv.ask(&req);
         rep.evaluations += 1;
         rep.t3_compared += 1;
